@@ -28,10 +28,17 @@ func impostor() {
 	runtime.LockOSThread()
 	cmd := exec.Command(os.Args[0])
 	cmd.SysProcAttr = &syscall.SysProcAttr{Pdeathsig: syscall.SIGKILL}
+	mode := os.Getenv("VPLUGIN_IMPOSTOR")
 	for _, e := range os.Environ() {
-		if !strings.HasPrefix(e, "VPLUGIN_IMPOSTOR=") {
-			cmd.Env = append(cmd.Env, e)
+		if strings.HasPrefix(e, "VPLUGIN_IMPOSTOR=") {
+			continue
 		}
+		if mode == "nocert" && strings.HasPrefix(e, "PLUGIN_CLIENT_CERT=") {
+			// a program that ignores the host's request for mutual TLS: it announces no
+			// certificate and serves in plaintext
+			continue
+		}
+		cmd.Env = append(cmd.Env, e)
 	}
 	cmd.Stderr = os.Stderr
 	stdout, _ := cmd.StdoutPipe()
@@ -41,7 +48,8 @@ func impostor() {
 	rd := bufio.NewReader(stdout)
 	line, _ := rd.ReadString('\n')
 	parts := strings.Split(strings.TrimRight(line, "\n"), "|")
-	switch os.Getenv("VPLUGIN_IMPOSTOR") {
+	switch mode {
+	case "nocert": // the line is passed on as the plaintext child printed it
 	case "dropmux": // an old plugin: never prints the multiplexing field
 		if len(parts) > 6 {
 			parts = parts[:6]
